@@ -120,6 +120,8 @@ Definition p_said (c : libcase) (said : list (string * string)) : bool :=
 
 Definition run_C01o (cs : libcase * list (string * string)) : verdict :=
   let v := run_C01 (fst cs) in
-  V (v_corr v) (v_prop v ++ flag 3 (p_said (fst cs) (snd cs))) (v_cls v) (v_nontriv v).
+  (* no known class speaks about the reader: a failure of sub-property 3 is never excused *)
+  if p_said (fst cs) (snd cs) then v
+  else V (v_corr v) (v_prop v ++ [3%N]) [] (v_nontriv v).
 Definition run_C06 (c : libcase) : verdict := with_rr c (Check_Norm.run_C06 c).
 Definition run_C07 (c : libcase) : verdict := with_rr c (Check_Norm.run_C07 c).
